@@ -97,7 +97,7 @@ CHECKS = {
    engine="simnet+proptest",
    technique="property-based testing: sizes within +-3 bytes of generated limits enumerated for each of the four frames and four limit placements, at codec level (in-memory) and network level (simnet); frame sizes from the reference codec; default-config sizes around 8 MiB",
    text="Boundary sizes are enumerated around every generated limit; the oracle is the independent size computation plus intact round trip, bounded virtual return time and a follow-up RPC. Exploration over limits; known finding F4 (8 MiB default cap) is reported as KNOWN-FINDING.",
-   note="Trusted: refmodel::wire for frame sizes, fabric + paused clock.",
+   note="Trusted: refmodel::wire for frame sizes, fabric + paused clock. Limits of 0-20 bytes are covered by a separate part (0 is a configured value, not 'unset'); sizes are what goes on the wire, including headers added by the caller's own outbound middleware.",
    design="§4 C15"),
  "C16": dict(
    engine="proptest+simnet+libfuzzer",
@@ -115,7 +115,7 @@ CHECKS = {
    engine="proptest",
    technique="property-based testing: model-based operation histories (arrive/poll/release/cancel) with hand-polled futures, per-peer running-set model as oracle",
    text="The harness owns every poll, so request interleavings are generated, not sampled; the model is the per-peer running set. Exploration of histories up to 60 operations.",
-   note="Trusted: tokio Semaphore, dashmap. Inner service is an instrumented stub with a per-peer gauge that counts a request from the moment call() is entered; a tokio context is present; parts many-peers (up to 3000 earlier peers) and cancel-storm (up to 1500 cancelled waiters) cover long lifetimes.",
+   note="Trusted: tokio Semaphore, dashmap. Inner service is an instrumented stub with a per-peer gauge that counts a request from the moment call() is entered; a tokio context is present; parts many-peers (up to 3000 earlier peers) and cancel-storm (up to 1500 cancelled waiters) cover long lifetimes; first-contact-race uses real threads (sampled interleavings).",
    design="§4 C18"),
  "C19": dict(
    engine="proptest (real clock)",
